@@ -31,9 +31,9 @@ func c19DocF(r *fw.Rand, hostile bool, first int) (string, []string) {
 	if hostile {
 		pick := func() *gen.Person { return g.People[r.Intn(len(g.People))] }
 		for k := r.Range(1, 3); k > 0; k-- {
-			feature := r.Intn(9)
+			feature := r.Intn(c19Features)
 			if first >= 0 {
-				feature, first = first%9, -1
+				feature, first = first%c19Features, -1
 			}
 			switch feature {
 			case 0: // hostile source pointers
@@ -86,11 +86,41 @@ func c19DocF(r *fw.Rand, hostile bool, first int) (string, []string) {
 				p.Ptr = []string{"../i", "a/b", "I 1"}[r.Intn(3)]
 				notes = append(notes, "individual-pointer:"+p.Ptr)
 				_ = old
+			case 9: // two individuals with the same pointer
+				a, b := pick(), pick()
+				if a != b {
+					b.Ptr = a.Ptr
+					notes = append(notes, "duplicate-individual-pointer")
+				}
+			case 10: // two sources with the same pointer
+				if len(g.Sources) > 0 {
+					g.Sources = append(g.Sources, &gen.Source{Ptr: g.Sources[0].Ptr, Title: "Second source with the same pointer"})
+					notes = append(notes, "duplicate-source-pointer")
+				}
+			case 11: // two sources whose pointers differ only in characters that cannot be in a file name
+				pr := [][2]string{{"a/b", "a-b"}, {"S 9", "S-9"}, {"x..y", "x-y"}, {"../k", "-k"}}[r.Intn(4)]
+				g.Sources = append(g.Sources, &gen.Source{Ptr: pr[0], Title: "First of a pair"}, &gen.Source{Ptr: pr[1], Title: "Second of a pair"})
+				pick().Extra = append(pick().Extra, &gen.Spec{Tag: "SOUR", Value: "@" + pr[0] + "@"})
+				pick().Extra = append(pick().Extra, &gen.Spec{Tag: "SOUR", Value: "@" + pr[1] + "@"})
+				notes = append(notes, "source-pointers-same-file-name:"+pr[0])
+			case 12: // a source whose pointer is the page key of a person or of a place
+				p := pick()
+				key := strings.ToLower(p.Given + "-" + p.Surname)
+				if r.Bool() {
+					q := pick()
+					q.Events = append(q.Events, &gen.Ev{Tag: "RESI", Y: 1854, M: 1, D: 1, Place: "Upper Hutt"})
+					key = "upper-hutt"
+				}
+				g.Sources = append(g.Sources, &gen.Source{Ptr: key, Title: "Pointer equal to a page key"})
+				pick().Extra = append(pick().Extra, &gen.Spec{Tag: "SOUR", Value: "@" + key + "@"})
+				notes = append(notes, "source-pointer-equals-page-key:"+key)
 			}
 		}
 	}
 	return g.Text(), notes
 }
+
+const c19Features = 13
 
 func c19N(tier string) int {
 	if tier == "thorough" {
